@@ -636,7 +636,201 @@ theorem polyakd_example_no_run_beats_bound (f : E → ℝ) (g : E → E) (μ L :
   rw [hpol, mul_zero, add_zero] at key
   linarith [P0, P1, P2, key]
 
+/-! ## Polyak step, function values (adaptive_methods.polyak_steps_in_function_value) -/
+
+theorem polyakf_init_den (v : Nat → E) (φ : Nat → ℝ) : EDict.den v φ polyakfInit = φ 1 - φ 0 - 1 := by
+  unfold polyakfInit EDict.subConst
+  rw [EDict.den_addConst, EDict.den_sub v φ _ _ (nodup_singleE _ _), denE_single, denE_single]
+  push_cast; ring
+
+theorem polyakf_step_den (v : Nat → E) (φ : Nat → ℝ) (L γ : Coef) :
+    EDict.den v φ (polyakfStep L γ) =
+      ‖v 2‖ ^ 2 - 2 * ((L : ℚ) : ℝ) * (2 - ((L : ℚ) : ℝ) * ((γ : ℚ) : ℝ)) * (φ 1 - φ 0) := by
+  unfold polyakfStep PDict.sq
+  rw [EDict.den_sub v φ _ _ (EDict.wf_smul _ _ (EDict.wf_sub _ _ (nodup_singleE _ _))), EDict.den_smul,
+    EDict.den_sub v φ _ _ (nodup_singleE _ _), den_ip, real_inner_self_eq_norm_sq, denE_single, denE_single, denP_single]
+  push_cast; ring
+
+theorem polyakf_metric_den (v : Nat → E) (φ : Nat → ℝ) : EDict.den v φ polyakfMetric = φ 2 - φ 0 := by
+  unfold polyakfMetric
+  rw [EDict.den_sub v φ _ _ (nodup_singleE _ _), denE_single, denE_single]
+
+/-- the closed form of the example is nonnegative on its range: `q(u) = u(3 − u(1 + m)) − 1 ≥ 0` for `1 ≤ u ≤ 2 − m`, `0 ≤ m ≤ 1`
+(`u = γL`, `m = μ/L`) -/
+theorem polyakf_rate_nonneg (u m : ℝ) (hm0 : 0 ≤ m) (hm1 : m ≤ 1) (hu1 : 1 ≤ u) (hu2 : u ≤ 2 - m) :
+    0 ≤ u * (3 - u * (1 + m)) - 1 := by
+  have h1 : 0 ≤ (u - 1) * (2 - m - u) := mul_nonneg (by linarith) (by linarith)
+  have h2 : 0 ≤ (1 - m) ^ 3 := pow_nonneg (by linarith) 3
+  have h3 : 0 ≤ m * (2 - m) * (2 - m - u) := mul_nonneg (mul_nonneg hm0 (by linarith)) (by linarith)
+  nlinarith [mul_nonneg hm0 h1, h1, h2, h3]
+
+/-- `γμ ≤ 1` on the range of the example (`u = γL ≤ 2 − m`, `m = μ/L`) -/
+theorem polyakf_um_le_one (u m : ℝ) (hm0 : 0 ≤ m) (hu2 : u ≤ 2 - m) : u * m ≤ 1 := by
+  nlinarith [mul_le_mul_of_nonneg_right hu2 hm0, sq_nonneg (1 - m)]
+
+/-- the arithmetic core of the certificate (reals only): the closed form minus the metric is the nonnegative combination -/
+theorem polyakf_core (Lr μ γr aa ag0 ag1 g00 g01 g11 D0 D1 : ℝ) (hL : 0 < Lr) (hμ : 0 < μ) (hLμ : 0 < Lr - μ)
+    (hγpos : 0 < γr) (hγL : 1 ≤ γr * Lr) (hγμ : γr * μ ≤ 1)
+    (hτ : 0 ≤ (γr * Lr - 1) * (Lr * γr * (3 - γr * (Lr + μ)) - 1))
+    (hS01 : 0 ≤ -D0 + ag0 - (1 / (2 * Lr) * g00 + μ / (2 * (1 - μ / Lr)) * (aa - 2 / Lr * ag0 + 1 / Lr ^ 2 * g00)))
+    (hS02 : 0 ≤ -D1 - (-ag1 + γr * g01) - (1 / (2 * Lr) * g11 + μ / (2 * (1 - μ / Lr)) *
+      (aa - 2 * γr * ag0 + γr ^ 2 * g00 - 2 / Lr * (ag1 - γr * g01) + 1 / Lr ^ 2 * g11)))
+    (hS12 : 0 ≤ (D0 - D1) - γr * g01 - (1 / (2 * Lr) * (g00 - 2 * g01 + g11) + μ / (2 * (1 - μ / Lr)) *
+      (γr ^ 2 * g00 - 2 * γr / Lr * (g00 - g01) + 1 / Lr ^ 2 * (g00 - 2 * g01 + g11))))
+    (hpol : g00 - 2 * Lr * (2 - Lr * γr) * D0 = 0) (hD0le : D0 ≤ 1)
+    (hres : 0 ≤ g11 + (Lr * γr * μ) ^ 2 * aa + (γr * (Lr + μ) - 1) ^ 2 * g00 - 2 * (Lr * γr * μ) * ag1
+        + 2 * (γr * (Lr + μ) - 1) * g01 - 2 * (Lr * γr * μ) * (γr * (Lr + μ) - 1) * ag0) :
+    D1 ≤ (γr * Lr - 1) * (Lr * γr * (3 - γr * (Lr + μ)) - 1) := by
+  have P0 := mul_nonneg hτ (by linarith : (0 : ℝ) ≤ 1 - D0)
+  have P1 := mul_nonneg (mul_nonneg (mul_nonneg hμ.le hγpos.le) (by linarith : (0 : ℝ) ≤ γr * Lr - 1)) hS01
+  have P2 := mul_nonneg (mul_nonneg hγpos.le hμ.le) hS02
+  have P3 := mul_nonneg (by linarith : (0 : ℝ) ≤ 1 - γr * μ) hS12
+  have P4 := mul_nonneg (by positivity : (0 : ℝ) ≤ 1 / (2 * (Lr - μ))) hres
+  have key : (γr * Lr - 1) * (Lr * γr * (3 - γr * (Lr + μ)) - 1) - D1
+      = (γr * Lr - 1) * (Lr * γr * (3 - γr * (Lr + μ)) - 1) * (1 - D0)
+        + (-(γr * (Lr * γr + γr * μ - 2)) / 2) * (g00 - 2 * Lr * (2 - Lr * γr) * D0)
+        + μ * γr * (γr * Lr - 1) * (-D0 + ag0 - (1 / (2 * Lr) * g00 + μ / (2 * (1 - μ / Lr)) * (aa - 2 / Lr * ag0 + 1 / Lr ^ 2 * g00)))
+        + γr * μ * (-D1 - (-ag1 + γr * g01) - (1 / (2 * Lr) * g11 + μ / (2 * (1 - μ / Lr)) *
+            (aa - 2 * γr * ag0 + γr ^ 2 * g00 - 2 / Lr * (ag1 - γr * g01) + 1 / Lr ^ 2 * g11)))
+        + (1 - γr * μ) * ((D0 - D1) - γr * g01 - (1 / (2 * Lr) * (g00 - 2 * g01 + g11) + μ / (2 * (1 - μ / Lr)) *
+            (γr ^ 2 * g00 - 2 * γr / Lr * (g00 - g01) + 1 / Lr ^ 2 * (g00 - 2 * g01 + g11))))
+        + 1 / (2 * (Lr - μ)) * (g11 + (Lr * γr * μ) ^ 2 * aa + (γr * (Lr + μ) - 1) ^ 2 * g00 - 2 * (Lr * γr * μ) * ag1
+            + 2 * (γr * (Lr + μ) - 1) * g01 - 2 * (Lr * γr * μ) * (γr * (Lr + μ) - 1) * ag0) := by
+    have hLne : Lr ≠ 0 := hL.ne'
+    have hLμne : Lr - μ ≠ 0 := hLμ.ne'
+    have h1' : 1 - μ / Lr = (Lr - μ) / Lr := by field_simp
+    rw [h1']
+    field_simp
+    ring
+  rw [hpol, mul_zero, add_zero] at key
+  have hfinal : 0 ≤ (γr * Lr - 1) * (Lr * γr * (3 - γr * (Lr + μ)) - 1) - D1 := by
+    rw [key]
+    exact add_nonneg (add_nonneg (add_nonneg (add_nonneg P0 P1) P2) P3) P4
+  linarith
+
+/-- **the tight rate of one Polyak step in function values is valid for the script's own model**: `f` `μ`-strongly convex and
+`L`-smooth (`0 < μ < L`), `g(x⋆) = 0`, `1/L ≤ γ ≤ (2L − μ)/L²`; under every interpretation consistent with `f` that satisfies the
+script's two constraints (`f(x0) − f⋆ ≤ 1` and `‖∇f(x0)‖² = 2L(2 − Lγ)(f(x0) − f⋆)`), the script's metric `f(x1) − f⋆` is at most
+`(γL − 1)(Lγ(3 − γ(L + μ)) − 1)`, the closed form the example returns.  Certificate: `τ` on the initial condition,
+`−γ(γ(L+μ) − 2)/2` on the Polyak rule, `μγ(γL − 1)`, `γμ`, `1 − γμ` on the interpolation inequalities `(⋆,0)`, `(⋆,1)`, `(0,1)`, and the
+residual `‖g1 − Lγμ (x0 − x⋆) + (γ(L+μ) − 1) g0‖² / (2(L − μ))` -/
+theorem polyakf_example_no_run_beats_bound (f : E → ℝ) (g : E → E) (μ : ℝ) (L γ : Coef) (hμ : 0 < μ)
+    (hμL : μ < ((L : ℚ) : ℝ))
+    (hγ1 : 1 / ((L : ℚ) : ℝ) ≤ ((γ : ℚ) : ℝ)) (hγ2 : ((γ : ℚ) : ℝ) ≤ (2 * ((L : ℚ) : ℝ) - μ) / ((L : ℚ) : ℝ) ^ 2)
+    (hconv : ∀ x y, f y ≥ f x + ⟪g x, y - x⟫ + μ / 2 * ‖y - x‖ ^ 2)
+    (hsm : ∀ x y, f y ≤ f x + ⟪g x, y - x⟫ + ((L : ℚ) : ℝ) / 2 * ‖y - x‖ ^ 2)
+    (v : Nat → E) (φ : Nat → ℝ) (hstar : g (v 0) = 0) (hg : v 2 = g (v 1)) (hg' : v 3 = g (v 1 - ((γ : ℚ) : ℝ) • v 2))
+    (h0 : φ 0 = f (v 0)) (h1 : φ 1 = f (v 1)) (h2 : φ 2 = f (v 1 - ((γ : ℚ) : ℝ) • v 2))
+    (hinit : EDict.den v φ polyakfInit ≤ 0) (hstep : EDict.den v φ (polyakfStep L γ) = 0) :
+    EDict.den v φ polyakfMetric ≤
+      (((γ : ℚ) : ℝ) * ((L : ℚ) : ℝ) - 1) *
+        (((L : ℚ) : ℝ) * ((γ : ℚ) : ℝ) * (3 - ((γ : ℚ) : ℝ) * (((L : ℚ) : ℝ) + μ)) - 1) := by
+  rw [polyakf_init_den, h0, h1] at hinit
+  rw [polyakf_step_den, h0, h1] at hstep
+  rw [polyakf_metric_den, h0, h2]
+  set Lr := ((L : ℚ) : ℝ) with hLr
+  set γr := ((γ : ℚ) : ℝ) with hγr
+  set x := v 1; set gx := v 2; set xs := v 0; set hx := v 3
+  set xp := x - γr • gx with hxp
+  have hL : 0 < Lr := lt_trans hμ hμL
+  have hLμ : 0 < Lr - μ := by linarith
+  have S01 := ssc_interp f g μ Lr hμ.le hμL hconv hsm xs x
+  have S02 := ssc_interp f g μ Lr hμ.le hμL hconv hsm xs xp
+  have S12 := ssc_interp f g μ Lr hμ.le hμL hconv hsm x xp
+  rw [hstar, ← hg] at S01
+  rw [hstar, ← hg'] at S02
+  rw [← hg, ← hg'] at S12
+  -- atoms: a = x − x⋆
+  set aa := ‖x - xs‖ ^ 2 with haa
+  set ag0 := ⟪gx, x - xs⟫ with hag0
+  set ag1 := ⟪hx, x - xs⟫ with hag1
+  set g00 := ‖gx‖ ^ 2 with hg00
+  set g01 := ⟪gx, hx⟫ with hg01
+  set g11 := ‖hx‖ ^ 2 with hg11
+  -- pair (⋆, 0)
+  have e01 : ⟪gx, xs - x⟫ = -ag0 := by rw [hag0, ← neg_sub x xs, inner_neg_right]
+  have n01 : ‖(0 : E) - gx‖ ^ 2 = g00 := by rw [zero_sub, norm_neg]
+  have q01 : ‖xs - x - (1 / Lr) • ((0 : E) - gx)‖ ^ 2 = aa - 2 / Lr * ag0 + 1 / Lr ^ 2 * g00 := by
+    have : xs - x - (1 / Lr) • ((0 : E) - gx) = -((x - xs) - (1 / Lr) • gx) := by rw [zero_sub, smul_neg]; abel
+    rw [this, norm_neg, @norm_sub_sq_real, real_inner_smul_right, norm_smul, mul_pow, Real.norm_eq_abs, sq_abs, real_inner_comm]
+    ring
+  -- pair (⋆, 1): x⁺ − x⋆ = a − γ g0
+  have e02 : ⟪hx, xs - xp⟫ = -ag1 + γr * g01 := by
+    have : xs - xp = -(x - xs) + γr • gx := by rw [hxp]; abel
+    rw [this, inner_add_right, inner_neg_right, real_inner_smul_right, hag1, hg01, real_inner_comm gx hx]
+  have n02 : ‖(0 : E) - hx‖ ^ 2 = g11 := by rw [zero_sub, norm_neg]
+  have hw : ‖(x - xs) - γr • gx‖ ^ 2 = aa - 2 * γr * ag0 + γr ^ 2 * g00 := by
+    rw [@norm_sub_sq_real, real_inner_smul_right, norm_smul, mul_pow, Real.norm_eq_abs, sq_abs, real_inner_comm]
+    ring
+  have hwi : ⟪(x - xs) - γr • gx, hx⟫ = ag1 - γr * g01 := by
+    rw [inner_sub_left, real_inner_smul_left, real_inner_comm hx (x - xs)]
+  have q02 : ‖xs - xp - (1 / Lr) • ((0 : E) - hx)‖ ^ 2
+      = aa - 2 * γr * ag0 + γr ^ 2 * g00 - 2 / Lr * (ag1 - γr * g01) + 1 / Lr ^ 2 * g11 := by
+    have : xs - xp - (1 / Lr) • ((0 : E) - hx) = -(((x - xs) - γr • gx) - (1 / Lr) • hx) := by
+      rw [hxp, zero_sub, smul_neg]; abel
+    rw [this, norm_neg, norm_sub_sq_real ((x - xs) - γr • gx) ((1 / Lr) • hx), real_inner_smul_right, hw, hwi, norm_smul, mul_pow,
+      Real.norm_eq_abs, sq_abs]
+    ring
+  -- pair (0, 1): x − x⁺ = γ g0
+  have e12 : ⟪hx, x - xp⟫ = γr * g01 := by
+    rw [hxp, sub_sub_cancel, real_inner_smul_right, hg01, real_inner_comm]
+  have n12 : ‖gx - hx‖ ^ 2 = g00 - 2 * g01 + g11 := by rw [@norm_sub_sq_real]
+  have q12 : ‖x - xp - (1 / Lr) • (gx - hx)‖ ^ 2
+      = γr ^ 2 * g00 - 2 * γr / Lr * (g00 - g01) + 1 / Lr ^ 2 * (g00 - 2 * g01 + g11) := by
+    have : x - xp - (1 / Lr) • (gx - hx) = γr • gx - (1 / Lr) • (gx - hx) := by rw [hxp, sub_sub_cancel]
+    rw [this, @norm_sub_sq_real, real_inner_smul_left, real_inner_smul_right, inner_sub_right, norm_smul, norm_smul, mul_pow,
+      mul_pow, Real.norm_eq_abs, Real.norm_eq_abs, sq_abs, sq_abs, real_inner_self_eq_norm_sq, n12]
+    ring
+  rw [e01, n01, q01] at S01
+  rw [e02, n02, q02] at S02
+  rw [e12, n12, q12] at S12
+  set D0 := f x - f xs with hD0
+  set D1 := f xp - f xs with hD1
+  -- signs
+  have hγpos : 0 < γr := lt_of_lt_of_le (by positivity) hγ1
+  have hγL : 1 ≤ γr * Lr := by
+    have := mul_le_mul_of_nonneg_right hγ1 hL.le
+    rwa [one_div, inv_mul_cancel₀ hL.ne'] at this
+  have hγL2 : γr * Lr ≤ 2 - μ / Lr := by
+    have := mul_le_mul_of_nonneg_right hγ2 hL.le
+    have e : (2 * Lr - μ) / Lr ^ 2 * Lr = 2 - μ / Lr := by field_simp
+    rwa [e] at this
+  have hm0 : 0 ≤ μ / Lr := div_nonneg hμ.le hL.le
+  have hm1 : μ / Lr ≤ 1 := (div_le_one hL).mpr hμL.le
+  have hγμ : γr * μ ≤ 1 := by
+    have h : γr * μ = (γr * Lr) * (μ / Lr) := by field_simp
+    rw [h]; exact polyakf_um_le_one (γr * Lr) (μ / Lr) hm0 hγL2
+  have hτ : 0 ≤ (γr * Lr - 1) * (Lr * γr * (3 - γr * (Lr + μ)) - 1) := by
+    have hq := polyakf_rate_nonneg (γr * Lr) (μ / Lr) hm0 hm1 hγL hγL2
+    have e : γr * Lr * (3 - γr * Lr * (1 + μ / Lr)) - 1 = Lr * γr * (3 - γr * (Lr + μ)) - 1 := by field_simp
+    rw [e] at hq
+    exact mul_nonneg (by linarith) hq
+  -- slacks
+  have hS01 : 0 ≤ -D0 + ag0 - (1 / (2 * Lr) * g00 + μ / (2 * (1 - μ / Lr)) * (aa - 2 / Lr * ag0 + 1 / Lr ^ 2 * g00)) := by
+    rw [hD0]; linarith
+  have hS02 : 0 ≤ -D1 - (-ag1 + γr * g01) - (1 / (2 * Lr) * g11 + μ / (2 * (1 - μ / Lr)) *
+      (aa - 2 * γr * ag0 + γr ^ 2 * g00 - 2 / Lr * (ag1 - γr * g01) + 1 / Lr ^ 2 * g11)) := by
+    rw [hD1]; linarith
+  have hS12 : 0 ≤ (D0 - D1) - γr * g01 - (1 / (2 * Lr) * (g00 - 2 * g01 + g11) + μ / (2 * (1 - μ / Lr)) *
+      (γr ^ 2 * g00 - 2 * γr / Lr * (g00 - g01) + 1 / Lr ^ 2 * (g00 - 2 * g01 + g11))) := by
+    rw [hD0, hD1]; linarith
+  have hpol : g00 - 2 * Lr * (2 - Lr * γr) * D0 = 0 := by rw [hD0]; linarith
+  have hD0le : D0 ≤ 1 := by rw [hD0]; linarith
+  -- residual: a perfect square
+  have hres : 0 ≤ ‖hx - (Lr * γr * μ) • (x - xs) + (γr * (Lr + μ) - 1) • gx‖ ^ 2 := sq_nonneg _
+  have hres' : ‖hx - (Lr * γr * μ) • (x - xs) + (γr * (Lr + μ) - 1) • gx‖ ^ 2
+      = g11 + (Lr * γr * μ) ^ 2 * aa + (γr * (Lr + μ) - 1) ^ 2 * g00 - 2 * (Lr * γr * μ) * ag1
+        + 2 * (γr * (Lr + μ) - 1) * g01 - 2 * (Lr * γr * μ) * (γr * (Lr + μ) - 1) * ag0 := by
+    rw [@norm_add_sq_real, @norm_sub_sq_real, inner_sub_left, real_inner_smul_right, real_inner_smul_left, real_inner_smul_right,
+      real_inner_smul_right, norm_smul, norm_smul, mul_pow, mul_pow, Real.norm_eq_abs, Real.norm_eq_abs, sq_abs, sq_abs,
+      real_inner_comm gx hx, real_inner_comm gx (x - xs)]
+    ring
+  rw [hres'] at hres
+  exact polyakf_core Lr μ γr aa ag0 ag1 g00 g01 g11 D0 D1 hL hμ hLμ hγpos hγL hγμ hτ hS01 hS02 hS12 hpol hD0le hres
+
 end Pepit.C09M
+
+#print axioms Pepit.C09M.polyakf_example_no_run_beats_bound
 
 #print axioms Pepit.C09M.polyakd_example_no_run_beats_bound
 
